@@ -313,7 +313,7 @@ fn run_case<G: AffineRepr + RefRun>(env: &Env<G>, fixtures: &[Fixture], c: &Case
             let prog = gen_program(*seed, cfg);
             o.count("programs", 1);
             let ctxj = |w: &str| json!({"program": prog, "what": w});
-            let cap = 128;
+            let cap = (cfg.n1 + cfg.n2).next_power_of_two().max(128);
             let bp = env.bp_of(cap);
             let po = prove::<G>(env, &prog, &[], &bp, seed ^ 0x18);
             let cur = po.proof.as_ref().ok().and_then(|p| p.to_bytes().ok());
@@ -407,6 +407,11 @@ fn run_curve<G: AffineRepr + RefRun>(ctx: &Ctx, curve: &'static str, only: Optio
             let mut r = R::new(ctx.sub_seed(18, curve.len() as u64));
             for (_, cfg) in crate::gen::corner_cfgs(32) {
                 cs.push(Case::Live { curve: curve.into(), seed: r.u64(), cfg });
+            }
+            // a few large circuits (long vectors, many rounds): byte/schedule comparison at scale
+            let big: Vec<(usize, usize)> = if ctx.tier == Tier::Thorough { vec![(255, 0), (256, 0), (257, 0), (100, 156), (0, 300), (513, 3)] } else { vec![(129, 0), (60, 70)] };
+            for (a, b) in big {
+                cs.push(Case::Live { curve: curve.into(), seed: r.u64(), cfg: GenCfg { q: 2, depth: 1, ..GenCfg::simple(a, b) } });
             }
             for i in 0..ctx.n(500, 8000) {
                 let cfg = random_cfg(&mut r, if i % 8 == 0 { 64 } else { 16 });
